@@ -18,4 +18,5 @@ def run(c):
     c.guard("blocks", st.get("blocks", 0))
     c.guard("seals", st.get("seals", 0))
     c.guard("blocks_with_cheaters", st.get("blocks_with_cheaters", 0))
+    c.guard("blocks_over_260_events", st.get("blocks_over_260_events", 0))
     return lc.finish(c, res, "every block of every recorded run compared with anc[atropos] \\ confirmed (set and multiplicity), frame numbering and root-ness by the trace specification; bounded model states replayed", extra=dict(exhaustive_part=ex["total"], model_samples=ex["samples"]))
